@@ -12,7 +12,7 @@ RULE = ("every undirected graph on n <= 5 (thorough 6) labelled nodes, as a symm
         "linkage at t with the components of the max_edits=t neighbour graph; non-trivial = at least one edge")
 ASSUMPTIONS = ["SciPy linkage/fcluster and igraph community detection are the trusted base named by the property; community variants are only required to stay inside connected components",
                "rapidfuzz cdist workers=-1 answered with one thread"]
-REQUIRED_CLASSES = {"all": ["empty-neighbour-list", "isolated-node", "distance-0-edge", "float-distances", "string-labels", "series-labels", "tcr-table", "single-linkage-identity", "repeated-node-labels", "empty-linkage_kws", "self-matches-in-neighbour-list"]}
+REQUIRED_CLASSES = {"all": ["empty-neighbour-list", "isolated-node", "distance-0-edge", "float-distances", "string-labels", "series-labels", "tcr-table", "single-linkage-identity", "repeated-node-labels", "empty-linkage_kws", "self-matches-in-neighbour-list", "partial-cluster_kws"]}
 MIN_OUTCOMES = 10
 SINGLE_THREAD_RAPIDFUZZ = True
 METHODS = ("cc", "fastgreedy", "multilevel", "leiden")
@@ -222,6 +222,17 @@ def check_case(case, acc):
             eC = hc.fcluster(eL, t=t, criterion="distance")
             if raised(r) or not np.array_equal(np.asarray(r[0]), eL) or list(r[1]) != list(eC):
                 acc.fail("hierarchical_clustering/list/empty-linkage_kws", ("hier1", case[1], "empty", t), eC.tolist(), r if raised(r) else list(map(int, r[1])))
+                return
+            acc.ok()
+        # cluster_kws is handed to SciPy as given: a missing criterion means SciPy's default ('inconsistent'); depth is honoured
+        acc.cls("partial-cluster_kws")
+        for ck in (dict(t=1.0), dict(t=0.8, depth=3), dict(t=0.9, criterion="inconsistent", depth=4), dict(t=2, criterion="maxclust")):
+            lk = dict(method="average")
+            r = acc.call(pyrepseq.hierarchical_clustering, seqs, linkage_kws=lk, cluster_kws=dict(ck))
+            eL = hc.linkage(dist, **lk)
+            eC = hc.fcluster(eL, **ck)
+            if raised(r) or not np.array_equal(np.asarray(r[0]), eL) or list(r[1]) != list(eC):
+                acc.fail("hierarchical_clustering/list/partial-cluster_kws", ("hier1", case[1], "partial", 0), eC.tolist(), r if raised(r) else list(map(int, r[1])), note=str(ck))
                 return
             acc.ok()
         # default arguments: average linkage with optimal ordering, t=6
